@@ -23,6 +23,7 @@ class Gen:
 
     # ---- types: python tuples ('A', letter) ('PE', letter, cname) ('E', name, letter, enumerators, cname) ('Q', kind, elem, n) ('T', [tys], pair) ('O', kind, ty) ('V', [tys]) ('U',) ('S', name, [(label, ty)])
     def ty(self, depth=0, in_set=False, carray_ok=False):
+        if depth == 0: self.in_cont = 0
         r = self.rng
         leafy = depth >= self.max_depth or r.random() < 0.3
         if leafy or in_set:
@@ -51,16 +52,16 @@ class Gen:
             if kind == 'proxy': return ('Q', 'proxy', ('A', r.choice(sorted(PROXY))), None)     # user container whose iterator yields a wider type than value_type
             if kind in ('set', 'multiset'): return ('Q', kind, self.ty(depth + 1, in_set=True), None)
             if kind == 'map':
-                vt = ('Q', r.choice(['set', 'multiset']), ('A', r.choice('bsilBSIL')), None) if r.random() < 0.5 else self.ty(depth + 1)
+                self.in_cont += 1; vt = ('Q', r.choice(['set', 'multiset']), ('A', r.choice('bsilBSIL')), None) if r.random() < 0.5 else self.ty(depth + 1); self.in_cont -= 1
                 return ('Q', 'map', ('T', [('A', r.choice('bsilBSIL')), vt], True), None)
             n = r.randrange(0, 4) if kind in ('array', 'carray') else None
             if kind == 'carray' and n == 0: n = 1
-            e = self.ty(depth + 1)
+            self.in_cont += 1; e = self.ty(depth + 1); self.in_cont -= 1
             if kind == 'vector' and e == ('A', 'y'): return ('Q', 'vector_bool', e, None)
             return ('Q', kind, e, n)
         if k == 2: return ('T', [self.ty(depth + 1) for _ in range(r.randrange(0, 4))], False)
         if k == 3: return ('T', [self.ty(depth + 1), self.ty(depth + 1)], True)
-        if k == 4: return ('O', r.choice(OPT_KINDS), self.ty(depth + 1))
+        if k == 4: return ('O', r.choice([o for o in OPT_KINDS if o != 'unique'] if getattr(self, 'in_cont', 0) else OPT_KINDS), self.ty(depth + 1))
         if k == 5:
             alts = [self.ty(depth + 1) if r.random() < 0.8 else ('U',) for _ in range(r.randrange(1, 4))]
             return ('V', alts)
